@@ -258,3 +258,8 @@ Theorem per_list_share_le :
   lgrant l x o <= match o with OTick dt => (now x + dt - last_tick x) * lrate x l / 1000000 | _ => 0 end.
 Proof. exact ProofsK.lgrant_le. Qed.
 Print Assumptions per_list_share_le.
+
+(* tick spacing chosen by the code itself (Throttle::calculate_interval over m_rateSlow) *)
+Theorem calc_interval_bounds : forall t s, 100000 <= calc_interval t s <= 1000000.
+Proof. exact ProofsK.calc_interval_bounds. Qed.
+Print Assumptions calc_interval_bounds.
